@@ -18,3 +18,15 @@ rsync -a -u -i "$w/vp/pins/" /verif/vp/pins/ | grep '^>' | sed 's/^/   /'
 for d in manifest.d known_findings.d design.d corpus; do [ -d "$w/$d" ] && rsync -a -u -i --exclude '_header.json' --exclude 'C16.json' --exclude 'C04.json' --exclude 'C07.json' --exclude 'C20.json' --exclude 'C06.json' --exclude 'C05.json' "$w/$d/" /verif/$d/ | grep '^>' | sed 's/^/   /'; done
 echo "== repo commits on ws-$n:"
 git -C /repo log --oneline main..ws-$n
+# owned areas are copied by content (a global `touch` in /verif must not hide a builder's edit)
+case "$n" in
+  c0103) own="Term Props/C01.v Props/C02.v Props/C03.v";;
+  c08) own="Update Props/C08.v";; c09) own="Presolve Props/C09.v";; c10) own="Equil Props/C10.v";;
+  c11) own="Kkt Props/C11.v";; c12) own="Qdldl Props/C12.v";; c1315) own="Cones Props/C13.v Props/C15.v Props/C07_cones.v";;
+  c14) own="Nonsym Props/C14.v";; c16x) own="Csc Props/C16.v";; c1718) own="Chordal Props/C17.v Props/C18.v";;
+  c19) own="Json Props/C19.v";; *) own="";;
+esac
+for o in $own; do
+  if [ -d "$w/coq/theories/$o" ]; then rsync -a -c -i --include '*.v' --include '*/' --exclude '*' "$w/coq/theories/$o/" "/verif/coq/theories/$o/" | grep '^>' | sed 's/^/   own /'
+  elif [ -f "$w/coq/theories/$o" ]; then rsync -a -c -i "$w/coq/theories/$o" "/verif/coq/theories/$o" | grep '^>' | sed 's/^/   own /'; fi
+done
